@@ -122,3 +122,16 @@ Proof.
   - rewrite H; reflexivity.
 Qed.
 End LoopSim.
+
+(** The hypotheses under which the pow / gcd / roots theorems are stated: the big operations the
+    models are parameterised by are exact (these are the statements of Mul.umul_spec and
+    Div.udivrem_spec).  They are satisfiable: the spec-level stand-ins meet them. *)
+Definition bmul_exact (bmul : list Z -> list Z -> outcome (list Z)) : Prop :=
+  forall a b, canon a -> canon b -> bmul a b = Ret (enc (val a * val b)).
+Definition bdivrem_exact (bdivrem : list Z -> list Z -> outcome (list Z * list Z)) : Prop :=
+  forall a b, canon a -> canon b ->
+    bdivrem a b = if val b =? 0 then Panic DivZero else Ret (enc (val a / val b), enc (val a mod val b)).
+Lemma spec_bmul_exact : bmul_exact spec_bmul.
+Proof. intros a b _ _. reflexivity. Qed.
+Lemma spec_bdivrem_exact : bdivrem_exact spec_bdivrem.
+Proof. intros a b _ _. reflexivity. Qed.
